@@ -49,8 +49,14 @@ pub(crate) enum SectionKind<'data> {
 
 /// Rules governing how input sections should be mapped to output sections.
 pub(crate) struct SectionRules<'data> {
-    /// Rules by the hash of the first 4 bytes of the name.
-    rules: HashTable<SectionRule<'data>>,
+    /// Rules by the hash of the first 4 bytes of the name. Each rule is stored together with its
+    /// position in the original rule list.
+    rules: HashTable<(usize, SectionRule<'data>)>,
+
+    /// Rules that cannot be keyed by a literal 4-byte prefix (patterns shorter than 4 bytes or with
+    /// a glob metacharacter among their first 4 bytes), in their original order together with
+    /// their position in the original rule list.
+    unkeyed_rules: Vec<(usize, SectionRule<'data>)>,
 }
 
 /// Determines how a section name pattern is matched against input section names.
@@ -74,6 +80,16 @@ impl<'data> SectionNameMatcher<'data> {
             Self::Exact(n) => n.as_ref(),
             Self::Prefix(n) | Self::Glob(n, _) => n,
         }
+    }
+
+    /// Returns the four bytes that every section name matched by this matcher must start with, or
+    /// `None` if there is no such literal prefix.
+    fn key_bytes(&self) -> Option<&[u8]> {
+        let key = self.prefix_bytes().get(..4)?;
+        if matches!(self, Self::Glob(..)) && key.iter().any(|b| b"*?[\\".contains(b)) {
+            return None;
+        }
+        Some(key)
     }
 }
 
@@ -434,14 +450,18 @@ impl<'data> SectionRules<'data> {
     fn from_rules(rules: &[SectionRule<'data>]) -> Self {
         let mut map = SectionRules {
             rules: HashTable::with_capacity(rules.len() * RULE_TABLE_CAPACITY_MULTIPLIER),
+            unkeyed_rules: Vec::new(),
         };
-        for rule in rules {
-            let hash = section_name_prefix_hash(rule.name_matcher.prefix_bytes())
-                .expect("Prefixes of length less than 4 not yet supported");
+        for (index, rule) in rules.iter().enumerate() {
+            let Some(hash) = rule.name_matcher.key_bytes().map(hash_bytes) else {
+                map.unkeyed_rules.push((index, rule.clone()));
+                continue;
+            };
 
-            map.rules.insert_unique(hash, rule.clone(), |existing| {
-                section_name_prefix_hash(existing.name_matcher.prefix_bytes()).unwrap_or(0)
-            });
+            map.rules
+                .insert_unique(hash, (index, rule.clone()), |(_, existing)| {
+                    existing.name_matcher.key_bytes().map_or(0, hash_bytes)
+                });
         }
 
         map
@@ -458,11 +478,24 @@ impl<'data> SectionRules<'data> {
             return SectionRuleOutcome::Discard;
         }
 
-        if let Some(hash) = section_name_prefix_hash(section_name)
-            && let Some(rule) = self
-                .rules
-                .find(hash, |rule| rule.matches(section_name, file_name))
+        let keyed = section_name_prefix_hash(section_name).and_then(|hash| {
+            self.rules
+                .find(hash, |(_, rule)| rule.matches(section_name, file_name))
+        });
+
+        // The first rule in the original order wins, so an unkeyed rule only applies if it comes
+        // before the keyed rule that matched (if any).
+        let keyed_index = keyed.map_or(usize::MAX, |(index, _)| *index);
+        if let Some((_, rule)) = self
+            .unkeyed_rules
+            .iter()
+            .take_while(|(index, _)| *index < keyed_index)
+            .find(|(_, rule)| rule.matches(section_name, file_name))
         {
+            return rule.outcome;
+        }
+
+        if let Some((_, rule)) = keyed {
             return rule.outcome;
         }
 
